@@ -2,7 +2,8 @@
 //!
 //! source line : `LAY <dbg> <hex(cfg text)> HIST <n> (p r y | r r y | t n)*`
 //! `expand`    : parses the text with the REAL parser and serialises what it produced, for the model:
-//!               `LAYX <dbg> tv2 b dfl b qth b osd n NL n {cnt (r y action)*}* SRC cnt (y action)* HIST ...`
+//!               `LAYX <dbg> tv2 b dfl b qth b osd n NL n {cnt (r y action)*}* SRC cnt (y action)* [CHV2 minidle nkeys (key nch (nk k* pending rb nd d* action)*)*] HIST ...`
+//!               (the CHV2 section holds the defchordsv2 table per participating key, in table order)
 //! `eval`      : runs the real keyberon `Layout` built by the real parser on the history and prints
 //!               the trace of key-code lists and custom events, and the final state digest.
 use crate::ser::Ser;
@@ -152,7 +153,46 @@ pub fn serialise_cfg(c: &cfg::Cfg, hist: &[HEv]) -> (String, Ser) {
     }
     out.push(format!("SRC {cnt}"));
     out.extend(ents);
+    if let Some(ch) = layout.chords_v2.as_ref() {
+        // chords v2: per key (sorted) the chords it takes part in, in table order
+        let mapping = &ch.chords().mapping;
+        let mut keys: Vec<u16> = mapping.keys().copied().collect();
+        keys.sort();
+        out.push(format!("CHV2 {} {}", ch.verif_min_idle(), keys.len()));
+        for k in keys {
+            let cs = &mapping[&k].chords;
+            out.push(format!("{k} {}", cs.len()));
+            for c in cs.iter() {
+                let mut e: Vec<String> = vec![];
+                e.push(c.participating_keys.len().to_string());
+                for pk in c.participating_keys.iter() {
+                    e.push(pk.to_string());
+                }
+                e.push(c.pending_duration.to_string());
+                e.push(match c.release_behaviour {
+                    kanata_keyberon::chord::ReleaseBehaviour::OnFirstRelease => "0".into(),
+                    kanata_keyberon::chord::ReleaseBehaviour::OnLastRelease => "1".into(),
+                });
+                e.push(c.disabled_layers.len().to_string());
+                for d in c.disabled_layers.iter() {
+                    e.push(d.to_string());
+                }
+                ser.action(c.action, &mut e);
+                out.extend(e);
+            }
+        }
+    }
     (out.join(" "), ser)
+}
+
+/// layout digest, extended by the chords-v2 state when chords v2 is configured
+fn full_digest<'a, const C: usize, const R: usize, T: 'a + Copy + std::fmt::Debug>(
+    layout: &kanata_keyberon::layout::Layout<'a, C, R, T>,
+) -> String {
+    match layout.chords_v2.as_ref() {
+        Some(ch) => format!("{};v2={}", layout.verif_digest(), ch.verif_digest_chv2()),
+        None => layout.verif_digest(),
+    }
 }
 
 pub fn parse_cfg(text: &str) -> Result<cfg::Cfg, String> {
@@ -164,9 +204,6 @@ pub fn expand(line: &str) -> String {
     match parse_cfg(&p.cfg_text) {
         Err(_) => format!("{}X {} REJECT {}", p.tag, p.dbg as u8, p.hist_str),
         Ok(c) => {
-            if c.layout.b().chords_v2.is_some() {
-                return format!("{}X {} UNSUPPORTED chordsv2 {}", p.tag, p.dbg as u8, p.hist_str);
-            }
             let (s, _) = serialise_cfg(&c, &p.hist);
             format!("{}X {} {} {}", p.tag, p.dbg as u8, s, p.hist_str)
         }
@@ -189,9 +226,6 @@ pub fn eval(line: &str) -> String {
         Err(_) => return "rej".into(),
         Ok(c) => c,
     };
-    if c.layout.b().chords_v2.is_some() {
-        return "unsupported chordsv2".into();
-    }
     let (_, mut ser) = serialise_cfg(&c, &p.hist);
     let layout = c.layout.bm();
     let mut out: Vec<String> = vec![];
@@ -216,12 +250,12 @@ pub fn eval(line: &str) -> String {
                         prev = keys;
                     }
                     if p.dbg {
-                        out.push(format!("#{tick} {}", layout.verif_digest()));
+                        out.push(format!("#{tick} {}", full_digest(layout)));
                     }
                 }
             }
         }
     }
-    out.push(format!("D {}", layout.verif_digest()));
+    out.push(format!("D {}", full_digest(layout)));
     out.join(" ")
 }
